@@ -29,7 +29,7 @@ def jobs(tier):
             J.append(Job(name=f"c.writer.{sig}.A{acnt}.S{slen}.V{vsig}.{'le' if o == 'l' else 'be'}", group="C02.c", harness="harness/C02_writer.c",
                          defines={"SIG": '"' + sig + '"', "ACNT": acnt, "SLEN": slen, "VSIG": '"' + vsig + '"', "ORDER": "'%s'" % o},
                          real=["dbus/dbus-marshal-recursive.c", "dbus/dbus-marshal-validate.c", "dbus/dbus-signature.c", "dbus/dbus-list.c"], env=["assert_stubs.c", "mem.c", "memfuncs.c", "pool_lock.c"],
-                         checks="assert", unwind=170, unwindset=["_dbus_string_validate_utf8.0:12", "_dbus_string_validate_utf8.1:12", "_dbus_string_validate_utf8.2:12"], timeout=900, mem_gb=16,
+                         checks="assert", unwind=170, unwindset=["_dbus_string_validate_utf8.0:12", "_dbus_string_validate_utf8.1:12", "_dbus_string_validate_utf8.2:12", "validate_body_helper.0:14", "validate_body_helper.1:14", "validate_body_helper:6"], timeout=900, mem_gb=16,
                          extra=["--object-bits", "12", "--max-field-sensitivity-array-size", "200"], tiers=("quick", "thorough") if (k + (o == "B")) % 2 == 0 else ("thorough",),
                          encodes=["_dbus_type_writer_init", "_dbus_type_writer_write_basic", "_dbus_type_writer_recurse", "_dbus_type_writer_unrecurse", "writer_recurse_array", "writer_recurse_struct_or_dict_entry",
                                   "writer_recurse_variant", "_dbus_marshal_write_basic", "marshal_string", "_dbus_string_insert_alignment", "_dbus_validate_body_with_reason", "_dbus_type_reader_init",
